@@ -1,9 +1,82 @@
 import WzVerif.Driver.Proto
+import WzVerif.Model.Wire
+import WzVerif.Model.Response
 namespace Wz.Driver.C05
-open Wz Wz.Proto
+open Wz Wz.Proto Wz.Wire Wz.Hdr Wz.Resp
 
-/-- stub: no model commands yet -/
+/-! request:
+`wsgi <status> <method> <dp> <body> <take> <ncb> <getdata> <locOut> <clocOut> <hinit pairs> op…`
+answer: `ops=[r,…]|status=<hex>|headers=<pairs>|body=<hex bytes>|close=<sorted events>` or `!Exc` -/
+
+def pStatus (s : String) : Option StatusArg :=
+  match s.toList with
+  | 'i' :: r => (String.ofList r).toInt?.map .code
+  | 's' :: r => (pAtom (String.ofList r)).map .text
+  | _ => none
+
+def pItem (s : String) : Option Item :=
+  match s.toList with
+  | 't' :: r => (pAtom (String.ofList r)).map .text
+  | 'b' :: r => (unhex (String.ofList r)).map .bytes
+  | _ => none
+
+/-- `<kind>:<item>/<item>…`; kinds S str, B bytes, L list, T tuple, G generator, C closable
+iterator, F file wrapper, I plain iterator without close, N None.
+Returns the body and the `set_data` length for S / B. -/
+def pBody (s : String) : Option (Body × Option Nat) :=
+  match s.splitOn ":" with
+  | [kind, items] => do
+    let its ← if items == "" then some [] else (items.splitOn "/").mapM pItem
+    if kind == "S" || kind == "B" then
+      pure (⟨.seq, its.map (fun i => .bytes i.encode)⟩, some (totalLen its))
+    else if kind == "L" || kind == "T" || kind == "N" then pure (⟨.seq, its⟩, none)
+    else if kind == "G" || kind == "C" || kind == "F" then pure (⟨.stream true, its⟩, none)
+    else if kind == "I" then pure (⟨.stream false, its⟩, none)
+    else none
+  | _ => none
+
+def oEv : CloseEv → String
+  | .wrapped => "wrapped"
+  | .cb n => "cb" ++ toString n
+
+def runOps (h : HList) : List String → Option (HList × List String)
+  | [] => some (h, [])
+  | o :: t => do
+    let op ← pHdrOp o
+    let r := Hdr.step h op
+    let (h', outs) ← runOps r.1 t
+    pure (h', oExcept oHdrRet r.2 :: outs)
+
+def handleWsgi (status method dp body take ncb getdata locOut clocOut hinit : String) (ops : List String) :
+    Option String := do
+  let status ← pStatus status
+  let dp ← boolArg dp
+  let (body, dataLen) ← pBody body
+  let take ← optArg natArg take
+  let ncb ← natArg ncb
+  let getdata ← boolArg getdata
+  let locOut ← pOptAtom locOut
+  let clocOut ← pOptAtom clocOut
+  let hinit ← pPairs hinit
+  match construct hinit status body dataLen dp with
+  | .error e => pure (oExc e)
+  | .ok r0 =>
+    let (h, outs) ← runOps r0.headers ops
+    let r1 := { r0 with headers := h }
+    let r2 := (List.range ncb).foldl callOnClose r1
+    let r3 := if getdata then makeSequence r2 else r2
+    let m := method.toList
+    let headers := getWsgiHeaders r3 (locOut.getD []) (clocOut.getD [])
+    let it := getAppIter r3 m
+    let chunks := match take with | none => it.chunks | some n => it.chunks.take n
+    let bodyBytes : Bytes := chunks.flatten
+    let log := sortStrs ((closeLog r3 m).map oEv)
+    pure ("ops=[" ++ ",".intercalate outs ++ "]|status=" ++ oS r3.statusLine ++ "|headers=" ++ oPairs headers ++
+      "|body=" ++ hex bodyBytes ++ "|close=[" ++ ",".intercalate log ++ "]")
+
 def handle : Handler
+  | "wsgi", status :: method :: dp :: body :: take :: ncb :: getdata :: locOut :: clocOut :: hinit :: ops =>
+    some ((handleWsgi status method dp body take ncb getdata locOut clocOut hinit ops).getD badArgs)
   | _, _ => none
 
 end Wz.Driver.C05
